@@ -331,14 +331,12 @@ Section Sys.
   Qed.
 
   (* ---------------------------------------------------------------- the clock *)
-  Definition clock_unbound (cs : list component) : bool :=
-    forallb (fun c => negb (existsb (String.eqb clock_addr) (bound_addrs c))) cs.
-  Definition addons_no_elapse (cs : list component) : bool :=
-    forallb (fun c => forallb (fun ad => negb (String.eqb (sig_of (ad_action ad)) "*.elapse")) (c_addons c)) cs.
+  Notation clock_unbound := (Dispatch.clock_unbound Ent Pay).
+  Notation addons_no_elapse := (Dispatch.addons_no_elapse Ent Pay).
 
   Lemma clock_unbound_spec cs c : clock_unbound cs = true -> In c cs -> ~ In clock_addr (bound_addrs c).
   Proof.
-    unfold clock_unbound. rewrite forallb_forall. intros H Ic I. specialize (H c Ic).
+    unfold Dispatch.clock_unbound, Dispatch.addr_unbound. rewrite forallb_forall. intros H Ic I. specialize (H c Ic).
     apply negb_true_iff in H. assert (X : existsb (String.eqb clock_addr) (bound_addrs c) = true).
     { apply existsb_exists. exists clock_addr. split; [exact I|apply String.eqb_refl]. }
     congruence.
@@ -419,7 +417,7 @@ Section Sys.
     - intros c ad x s0 x1 s1 ev Ic Inc Iad E H. destruct x, x1. apply IH in H.
       rewrite no_timers in H; [exact H|].
       apply not_true_is_false. intros T. apply is_elapse_sig in T.
-      unfold addons_no_elapse in AN. rewrite forallb_forall in AN.
+      unfold Dispatch.addons_no_elapse in AN. rewrite forallb_forall in AN.
       specialize (AN c (proj2 (comps_of_in sys c) Ic)). rewrite forallb_forall in AN. specialize (AN ad Iad).
       change (sig_of (mark (ad_action ad))) with (sig_of (ad_action ad)) in T. rewrite T in AN. discriminate.
   Qed.
